@@ -91,24 +91,60 @@ def appendString (s : Bytes) : Bytes :=
   if hl < s.length then orFirst 0x80 (appendVarInt 7 hl) ++ Huffman.encode s
   else appendVarInt 7 s.length ++ s
 
-def typeByte (indexing sensitive : Bool) : Nat := if sensitive then 0x10 else if indexing then 0x40 else 0
+/-! ### header field representations (RFC 7541 §6): the layer between table logic and bytes -/
 
-/-- `Encoder.WriteField`: new encoder state and the bytes written -/
-def Enc.writeField (e : Enc) (f : Field) : Enc × Bytes :=
+inductive LitKind
+  | incremental   -- 6.2.1, 6-bit name index, type bits 01
+  | without       -- 6.2.2, 4-bit name index, type bits 0000
+  | never         -- 6.2.3, 4-bit name index, type bits 0001
+  deriving DecidableEq, Repr
+
+inductive Rep
+  | indexed (i : Nat)
+  /-- `nameIdx = 0`: the name is given literally -/
+  | literal (kind : LitKind) (nameIdx : Nat) (name value : Bytes)
+  | sizeUpdate (v : Nat)
+  deriving DecidableEq, Repr
+
+def LitKind.prefixBits : LitKind → Nat
+  | .incremental => 6
+  | _ => 4
+
+def LitKind.typeByte : LitKind → Nat
+  | .incremental => 0x40
+  | .without => 0
+  | .never => 0x10
+
+/-- `encodeTypeByte(indexing, sensitive)` as a representation kind -/
+def litKind (indexing sensitive : Bool) : LitKind :=
+  if sensitive then .never else if indexing then .incremental else .without
+
+/-- `appendIndexed` / `appendNewName` / `appendIndexedName` / `appendTableSize` -/
+def serialize : Rep → Bytes
+  | .indexed i => orFirst 0x80 (appendVarInt 7 i)
+  | .sizeUpdate v => orFirst 0x20 (appendVarInt 5 v)
+  | .literal k 0 name value => [UInt8.ofNat k.typeByte] ++ appendString name ++ appendString value
+  | .literal k (i + 1) _ value => orFirst k.typeByte (appendVarInt k.prefixBits (i + 1)) ++ appendString value
+
+/-- the table part of `Encoder.WriteField`: new encoder state and the representations written -/
+def Enc.plan (e : Enc) (f : Field) : Enc × List Rep :=
   let (e, pre) :=
     if e.tableSizeUpdate then
-      let b1 := if e.minSize < e.tab.maxSize then orFirst 0x20 (appendVarInt 5 e.minSize) else []
-      ({ e with tableSizeUpdate := false, minSize := uint32Max }, b1 ++ orFirst 0x20 (appendVarInt 5 e.tab.maxSize))
+      let r1 := if e.minSize < e.tab.maxSize then [Rep.sizeUpdate e.minSize] else []
+      ({ e with tableSizeUpdate := false, minSize := uint32Max }, r1 ++ [Rep.sizeUpdate e.tab.maxSize])
     else (e, [])
   let (idx, nvMatch) := searchTable e f
-  if nvMatch then (e, pre ++ orFirst 0x80 (appendVarInt 7 idx))
+  if nvMatch then (e, pre ++ [Rep.indexed idx])
   else
     let indexing := !f.sensitive && decide (entrySize (f.name, f.value) ≤ e.tab.maxSize)
     let e' := if indexing then { e with tab := e.tab.add (f.name, f.value) } else e
-    if idx = 0 then
-      (e', pre ++ [UInt8.ofNat (typeByte indexing f.sensitive)] ++ appendString f.name ++ appendString f.value)
-    else
-      (e', pre ++ orFirst (typeByte indexing f.sensitive) (appendVarInt (if indexing then 6 else 4) idx) ++ appendString f.value)
+    -- with a name index the name itself is not written
+    (e', pre ++ [Rep.literal (litKind indexing f.sensitive) idx (if idx = 0 then f.name else []) f.value])
+
+/-- `Encoder.WriteField`: new encoder state and the bytes written -/
+def Enc.writeField (e : Enc) (f : Field) : Enc × Bytes :=
+  let (e', rs) := e.plan f
+  (e', rs.flatMap serialize)
 
 /-! ### decoder -/
 
@@ -149,66 +185,82 @@ def readString (maxStrLen : Nat) (p : Bytes) : Except DErr (Bytes × Bytes) :=
       | .error .invalid => .error .huffman
       | .error .strLen => .error .strLen
 
-def callEmit (d : Dec) (f : Field) : Except DErr Unit :=
-  if d.maxStrLen ≠ 0 ∧ (f.name.length > d.maxStrLen ∨ f.value.length > d.maxStrLen) then .error .strLen else .ok ()
-
-def parseLiteral (d : Dec) (n : Nat) (indexed never : Bool) (buf : Bytes) : Except DErr (Dec × Option Field × Bytes) :=
-  match readVarInt n buf with
+def parseLiteral (maxStrLen : Nat) (k : LitKind) (buf : Bytes) : Except DErr (Rep × Bytes) :=
+  match readVarInt k.prefixBits buf with
   | .error e => .error (liftErr e)
   | .ok (nameIdx, buf) =>
-    let nameR : Except DErr (Bytes × Bytes) :=
-      if nameIdx > 0 then
-        match d.at nameIdx with
-        | none => .error .invalid
-        | some e => .ok (e.1, buf)
-      else readString d.maxStrLen buf
+    let nameR : Except DErr (Bytes × Bytes) := if nameIdx > 0 then .ok ([], buf) else readString maxStrLen buf
     match nameR with
     | .error e => .error e
     | .ok (name, buf) =>
-      match readString d.maxStrLen buf with
+      match readString maxStrLen buf with
       | .error e => .error e
-      | .ok (value, buf) =>
-        let d' := if indexed then { d with tab := d.tab.add (name, value) } else d
-        let f : Field := { name := name, value := value, sensitive := never }
-        match callEmit d f with
-        | .error e => .error e
-        | .ok _ => .ok (d', some f, buf)
+      | .ok (value, buf) => .ok (.literal k nameIdx name value, buf)
 
-/-- `Decoder.parseHeaderFieldRepr` (precondition: `buf` non-empty) -/
-def parseRepr (d : Dec) (buf : Bytes) : Except DErr (Dec × Option Field × Bytes) :=
+/-- the syntactic half of `parseHeaderFieldRepr`: one representation off the front of `buf` (no table access).
+In Go the table lookups of `parseFieldIndexed/parseFieldLiteral` are interleaved with the reads; the interleaving only
+decides WHICH error a doubly malformed representation reports, and every decoding error ends the connection. -/
+def parseOne (maxStrLen : Nat) (buf : Bytes) : Except DErr (Rep × Bytes) :=
   match buf with
   | [] => .error .needMore
   | b :: _ =>
     let b := b.toNat
     if b / 128 % 2 = 1 then
-      -- indexed
       match readVarInt 7 buf with
       | .error e => .error (liftErr e)
-      | .ok (idx, rest) =>
-        match d.at idx with
-        | none => .error .invalid
-        | some e =>
-          let f : Field := { name := e.1, value := e.2 }
-          match callEmit d f with
-          | .error e => .error e
-          | .ok _ => .ok (d, some f, rest)
-    else if b / 64 = 1 then parseLiteral d 6 true false buf
-    else if b / 16 = 0 then parseLiteral d 4 false false buf
-    else if b / 16 = 1 then parseLiteral d 4 false true buf
+      | .ok (idx, rest) => .ok (.indexed idx, rest)
+    else if b / 64 = 1 then parseLiteral maxStrLen .incremental buf
+    else if b / 16 = 0 then parseLiteral maxStrLen .without buf
+    else if b / 16 = 1 then parseLiteral maxStrLen .never buf
     else if b / 32 = 1 then
-      -- dynamic table size update
-      if !d.firstField && decide (d.tab.size > 0) then .error .invalid else
       match readVarInt 5 buf with
       | .error e => .error (liftErr e)
-      | .ok (size, rest) =>
-        if size > d.allowedMax then .error .invalid
-        else .ok ({ d with tab := d.tab.setMaxSize size }, none, rest)
+      | .ok (size, rest) => .ok (.sizeUpdate size, rest)
     else .error .invalid
 
-def isSizeUpdate (buf : Bytes) : Bool :=
-  match buf with
-  | b :: _ => b.toNat / 32 = 1
-  | [] => false
+def callEmit (d : Dec) (f : Field) : Except DErr Unit :=
+  if d.maxStrLen ≠ 0 ∧ (f.name.length > d.maxStrLen ∨ f.value.length > d.maxStrLen) then .error .strLen else .ok ()
+
+/-- the table half of `parseFieldIndexed` / `parseFieldLiteral` / `parseDynamicTableSizeUpdate`: new decoder state
+and the field emitted -/
+def Dec.apply (d : Dec) : Rep → Except DErr (Dec × Option Field)
+  | .indexed idx =>
+    match d.at idx with
+    | none => .error .invalid
+    | some e =>
+      let f : Field := { name := e.1, value := e.2 }
+      match callEmit d f with
+      | .error e => .error e
+      | .ok _ => .ok ({ d with firstField := false }, some f)
+  | .literal k nameIdx name value =>
+    let nameR : Except DErr Bytes :=
+      if nameIdx > 0 then
+        match d.at nameIdx with
+        | none => .error .invalid
+        | some e => .ok e.1
+      else .ok name
+    match nameR with
+    | .error e => .error e
+    | .ok name =>
+      let d' := if k = .incremental then { d with tab := d.tab.add (name, value) } else d
+      let f : Field := { name := name, value := value, sensitive := decide (k = .never) }
+      match callEmit d f with
+      | .error e => .error e
+      | .ok _ => .ok ({ d' with firstField := false }, some f)
+  | .sizeUpdate size =>
+    -- "MUST occur at the beginning of the first header block": firstField stays set across size updates
+    if !d.firstField && decide (d.tab.size > 0) then .error .invalid
+    else if size > d.allowedMax then .error .invalid
+    else .ok ({ d with tab := d.tab.setMaxSize size }, none)
+
+/-- `Decoder.parseHeaderFieldRepr` -/
+def parseRepr (d : Dec) (buf : Bytes) : Except DErr (Dec × Option Field × Bytes) :=
+  match parseOne d.maxStrLen buf with
+  | .error e => .error e
+  | .ok (r, rest) =>
+    match d.apply r with
+    | .error e => .error e
+    | .ok (d', f) => .ok (d', f, rest)
 
 /-- `Decoder.Write(p)` followed by `Close()` on a complete block: the emitted fields, or an error -/
 def decodeLoop : Nat → Dec → Bytes → List Field → Except DErr (Dec × List Field)
@@ -217,11 +269,20 @@ def decodeLoop : Nat → Dec → Bytes → List Field → Except DErr (Dec × Li
     if buf.isEmpty then .ok ({ d with firstField := true }, acc.reverse) else
     match parseRepr d buf with
     | .error e => .error e       -- errNeedMore at the end of the block = "truncated headers"
-    | .ok (d', f, rest) =>
-      let d' := if isSizeUpdate buf then d' else { d' with firstField := false }
-      decodeLoop fuel d' rest (match f with | some f => f :: acc | none => acc)
+    | .ok (d', f, rest) => decodeLoop fuel d' rest (match f with | some f => f :: acc | none => acc)
 
 def Dec.decodeFull (d : Dec) (block : Bytes) : Except DErr (Dec × List Field) :=
   decodeLoop (block.length + 1) d block []
+
+/-- the decoder run on representations instead of bytes (what `decodeFull ∘ serialize` computes) -/
+def Dec.applyAll (d : Dec) : List Rep → Except DErr (Dec × List Field)
+  | [] => .ok ({ d with firstField := true }, [])
+  | r :: rs =>
+    match d.apply r with
+    | .error e => .error e
+    | .ok (d', f) =>
+      match Dec.applyAll d' rs with
+      | .error e => .error e
+      | .ok (d'', fs) => .ok (d'', (match f with | some f => f :: fs | none => fs))
 
 end MosnVerif.Model.HpackTable
